@@ -9,7 +9,10 @@
 typedef struct fiber_barrier {
   uint32_t count;
   _Atomic uint64_t counter;
-  mpsc_fifo_t waiters;
+  // one waiter list per round parity: a fiber that re-enters the next round
+  // while the current round is still being released must not be mistaken for
+  // a participant of the current round that has not enqueued itself yet
+  mpsc_fifo_t waiters[2];
 } fiber_barrier_t;
 
 #define FIBER_BARRIER_SERIAL_FIBER (1)
